@@ -35,7 +35,7 @@ Obs(e) == [idx |-> SetOf(e.idx), byDist |-> SetOf(e.byDist), far |-> e.far,
 Obs0 == [idx |-> {}, byDist |-> {}, far |-> 0, tasks |-> <<>>, notes |-> <<>>, range |-> 0, pay |-> 0]
 RbOf(e) == [k \in Key |-> IF k <= Len(e.rb) THEN e.rb[k] ELSE 0]
 
-Known == {"Reset", "Skipped", "PutVerified", "Remove", "RunTask", "HandleNote", "Get", "SetRange", "Cleanup",
+Known == {"Reset", "Skipped", "PutVerified", "Remove", "RunTask", "FailTask", "HandleNote", "Get", "SetRange", "Cleanup",
           "PaymentReceived", "Quote", "Restart"}
 
 \* position of the released body in the observed list of parked bodies before the step
@@ -56,7 +56,7 @@ ObservedOf(e) == [idx |-> SetOf(e.idx), byDist |-> SetOf(e.byDist), far |-> e.fa
 \* the model step for line e from model state ms: released body = same position; note = same kind/key/value
 ModelStep(ms, e) ==
     LET x == [ev |-> e.ev, s |-> ms, k |-> e.k, v |-> e.v, i |-> e.i, rg |-> e.rg, ni |-> e.ni, thr |-> thr]
-    IN IF e.ev = "RunTask" /\ (e.i < 1 \/ e.i > Len(ms.tasks)) THEN {}
+    IN IF e.ev \in {"RunTask", "FailTask"} /\ (e.i < 1 \/ e.i > Len(ms.tasks)) THEN {}
        ELSE IF e.ev = "HandleNote" /\ (e.ni < 1 \/ e.ni > Len(ms.notes)) THEN {}
        ELSE ModelResults(x)
 
